@@ -46,6 +46,15 @@ Section Files.
     pose proof (run_terminates str_eqb str_eqb_eq op sc (names fs) (openable_in_names fs) true root) as H.
     unfold names in H. rewrite map_length in H. exact H.
   Qed.
+
+  (* peekImport with its re-entrancy guard (since 528a6569a): from any set of paths being peeked into *)
+  Lemma peek_terminates peeking p e :
+    import_peek (S (length fs)) fs root root_imports peeking p e <> None.
+  Proof.
+    unfold import_peek.
+    apply (visit_terminates str_eqb str_eqb_eq op sc (names fs) (openable_in_names fs)).
+    pose proof (free_le str_eqb (names fs) peeking) as H. unfold names in *. rewrite map_length in H. lia.
+  Qed.
 End Files.
 
 (* a reported chain starts at the revisited path and is the top part of the stack *)
@@ -58,7 +67,7 @@ Proof.
   - exact (chain_from_suffix str_eqb p stack).
 Qed.
 
-(* peekImport: the same expansion without the stack test.  index.d2 = `c: {...@index}` *)
+(* HISTORICAL — peekImport before 528a6569a: the same expansion without any test.  index.d2 = `c: {...@index}` *)
 Definition self_import_root : str := [105;110;100;101;120;46;100;50].      (* index.d2 *)
 Definition self_import : imp := ([], [105;110;100;101;120]).                 (* @index *)
 Definition self_fs : fileset := [(self_import_root, [self_import])].
